@@ -295,13 +295,60 @@ def main(argv=None):
                 rep.violation(f"outcome {io} but the loader mirror predicts {mo} ({fault.__name__})",
                               {"kind": "correspondence", "relation": "Load.load / Ode.sorted_names vs ode_from_string + get_code", "text": text2,
                                "fault": fault.__name__, "failing_input": None}, failing_input_found=False)
+    # ---- syntax faults: one token of a right-hand side deleted, doubled, swapped with its neighbour or replaced; the verified
+    #      expression parser (Parse.parse_expr) and Lark must agree on acceptance, and on the expression when both accept
+    import re as _re
+    n_syn = 60 if a.tier == "quick" else 1500
+    cases = []
+    while len(cases) < n_syn:
+        src = lang.render(gen.expr(["x", "y", "p"], 3), rng)
+        toks = _re.findall(r"(?:\d+\.\d*|\.\d+|\d+)(?:[eE][+-]?\d+)?|[A-Za-z_]\w*|\*\*|[-+*/(),]", src)
+        if len(toks) < 3:
+            continue
+        k = rng.randrange(len(toks))
+        how = rng.choice(["delete", "double", "swap", "replace", "none"])
+        t2 = list(toks)
+        if how == "delete":
+            del t2[k]
+        elif how == "double":
+            t2.insert(k, t2[k])
+        elif how == "swap" and k + 1 < len(t2):
+            t2[k], t2[k + 1] = t2[k + 1], t2[k]
+        elif how == "replace":
+            t2[k] = rng.choice(["+", "*", "**", "(", ")", ",", "x", "2", "cos", "Lt", "-"])
+        mutated = " ".join(t2)
+        text2 = f"states(x=1, y=2)\nparameters(p=3)\nq = {mutated}\ndx_dt = q\ndy_dt = -y\n"
+        ecs = [ec for ec in impl.expression_cases(text2) if ec[0] == "q"]
+        tk = impl.tokenize_expression(mutated)
+        if tk is None:
+            continue
+        if ecs and ecs[0][2] != tk:
+            continue       # the text was accepted, but not as one right-hand side made of these tokens
+        _, _, lerr, _ = impl.load_text(text2)          # the real loader decides (it also refuses atan(x, x), Lt(x), ...)
+        if lerr is not None and lerr not in ("MissingSymbol",):
+            want = "none"
+        elif not ecs or ecs[0][3] is None:
+            rep.count("syntax_fault:accepted_call_shape_outside_the_model")    # e.g. log(x, base)
+            continue
+        else:
+            want = ecs[0][3]
+        cases.append((how, mutated, tk, want))
+    res = drv.ask(["parsetoks", [[tk, want] for _, _, tk, want in cases]])["results"]
+    for (how, mutated, tk, want), r in zip(cases, res):
+        rep.case(key=("syntax", mutated), nontrivial=True)
+        rep.count("syntax_fault:" + how + (":rejected" if want == "none" else ":accepted"))
+        if r["verdict"] != "agree" or not r["roundtrip"]:
+            rep.violation(f"a right-hand side with one token changed ({how}): Lark {'rejects' if want == 'none' else 'accepts'} it, the parser mirror: {r['verdict']}  [{mutated[:80]}]",
+                          {"kind": "correspondence", "relation": "Parse.parse_expr vs Lark", "expression": mutated, "failing_input": None},
+                          failing_input_found=False)
     drv.close()
     return rep.finish(
         level="proof",
         rule="one fault (duplicate with same deps / parenthesisation only / different deps / other component / derivative; kind clashes of "
              "every pair; missing, orphan, misplaced derivative; undefined symbol; cycles of length 1-5; control: identical repetition) "
              "at a random site of a random well-formed model with 1-3 components; every faulty text is distinct and non-trivial; outcome "
-             "class of load + generate (numpy; C on every 5th) vs the loader mirror",
+             "class of load + generate (numpy; C on every 5th) vs the loader mirror; plus right-hand sides with one token deleted / doubled / swapped / replaced: "
+             "acceptance and parsed expression of the verified parser vs Lark",
         trusted_base=["Coq 8.16.1 kernel", "extraction + ocaml/driver.ml", "harness fault injector and renderer", "Lark: the item list is taken from the real parse"],
         assumptions=["where sympy's structural equality and the mirror's tree equality could differ (1 vs 1.0 vs 1e0) the injector stays out: a second definition is either token-identical or differs in value"],
     )
